@@ -21,9 +21,8 @@
                asked for it (or produced one for somebody else / with other flags); a
                one-shot was not fired with FIRE|UNBIND
    EDestroy    destruction invoked a binding that is not live or did not ask, or with
-               other flags than UNBIND|DESTROY, or two bindings that existed when the
-               destruction began in other than reverse list order, or left out one that
-               asked
+               other flags than UNBIND|DESTROY, or while a binding later in the list that
+               asked was still waiting (order), or left out one that asked
    EIds        bind returned an id that is not positive or is the id of a live binding
    EProtocol   the trace is not a well-bracketed record of calls (a fault of whoever
                produced the trace, not of the library)
@@ -33,9 +32,12 @@
    be invoked in reverse order; the newest is run first and the oldest last", and the C
    reverses the list.  Adopted: REVERSE LIST ORDER, i.e. the reverse of the order in which
    an event would fire them; a binding made with TICKIT_BIND_FIRST sits at the head of
-   the list and is therefore notified last.  Only bindings that existed when the
-   destruction began are ordered; for a binding made by a handler during the destruction
-   the monitor demands nothing but "at most once, with the right flags, if it asked".
+   the list and is therefore notified last.  Destruction is read as a walk over the list
+   from its newest end: when a binding is told, everything behind it in the list has
+   already ceased to exist (those that did not ask, silently) -- which is also what decides
+   whether an event emitted by a destroy handler may still fire such a binding: it may
+   not.  A binding made by a handler during the destruction is part of the list like any
+   other (appended: it is the next to go; bound FIRST: the last).
 
    What the monitor deliberately does NOT demand (the statement is silent): whether a
    binding made during an occurrence of its own event is fired in that occurrence (in the
@@ -52,7 +54,7 @@ Inductive frame :=
 | FEmit (wf : bool) (ev : Z) (last : option Z) (pending : list Z) (claimed : bool)
 | FCall
 | FUnbind (pend : option Z)
-| FDestroy (last : option Z) (pending : list Z).
+| FDestroy.
 
 Record mstate := mkM { m_live : list abind; m_n : Z; m_stack : list frame }.
 Definition init_mstate : mstate := mkM [] 1 [].
@@ -113,14 +115,13 @@ Definition mon_step (m : mstate) (e : tev) : mstate + err :=
       end
   | TDestroyB =>
       match st with
-      | [] => inl (mkM live (m_n m) [FDestroy None (map a_name live)])
+      | [] => inl (mkM live (m_n m) [FDestroy])
       | _ => inr EProtocol
       end
   | TDestroyE =>
       match st with
-      | FDestroy last pending :: st' =>
-          if existsb (fun a => memZ (a_name a) pending && asked_destroy a) live
-          then inr EDestroy else inl (mkM [] (m_n m) st')
+      | FDestroy :: st' =>
+          if existsb asked_destroy live then inr EDestroy else inl (mkM [] (m_n m) st')
       | _ => inr EProtocol
       end
   | TCallB name flags =>
@@ -142,16 +143,14 @@ Definition mon_step (m : mstate) (e : tev) : mstate + err :=
           then inl (mkM live (m_n m) (FCall :: FUnbind None :: st'))
           else inr EUnbind
       | FUnbind None :: _ => inr EUnbind
-      | FDestroy last pending :: st' =>
+      | FDestroy :: st' =>
           match find_live name live with
           | None => inr EDestroy
           | Some a =>
               if negb (asked_destroy a) then inr EDestroy else
               if negb (flags =? EV_UNBIND + EV_DESTROY) then inr EDestroy else
-              let insnap := memZ name pending in
-              if insnap && match last with Some l => l <=? name | None => false end then inr EDestroy else
-              inl (mkM (remove_live name live) (m_n m)
-                       (FCall :: FDestroy (if insnap then Some name else last) pending :: st'))
+              if existsb (fun x => (name <? a_name x) && asked_destroy x) live then inr EDestroy else
+              inl (mkM (filter (fun x => a_name x <? name) live) (m_n m) (FCall :: FDestroy :: st'))
           end
       | _ => inr EProtocol
       end
